@@ -460,9 +460,20 @@ package gldap
 //@   tags C16
 //@ func (*gldap.Request).NewSearchResponseEntry
 //@   requires reqOK(r)
-//@   ensures  result != nil
+//@   ensures  result != nil && fresh(result) && result.baseResponse != nil && result.messageID == msgID(r.message) && result.entry.DN == entryDN
+//@   ensures  forall(j, 0, len(result.entry.Attributes), result.entry.Attributes[j] != nil)
 //@   panics false
-//@   tags C16
+//@   tags C04 C16
+//@ loop 1
+//@   invariant forall(j, 0, len(newAttrs), newAttrs[j] != nil)
+//@   modifies cell(*EntryAttribute)@newAttrs
+//@ func (*gldap.SearchResponseEntry).AddAttribute
+//@   requires r != nil && forall(j, 0, len(r.entry.Attributes), r.entry.Attributes[j] != nil)
+//@   ensures  len(r.entry.Attributes) == old(len(r.entry.Attributes)) + 1 && forall(j, 0, old(len(r.entry.Attributes)), r.entry.Attributes[j] == old(r.entry.Attributes[j]))
+//@   ensures  r.entry.Attributes[old(len(r.entry.Attributes))] != nil && r.entry.Attributes[old(len(r.entry.Attributes))].Name == name && r.entry.Attributes[old(len(r.entry.Attributes))].Values == values
+//@   ensures  r.baseResponse == old(r.baseResponse) && r.entry.DN == old(r.entry.DN)
+//@   panics false
+//@   tags C04
 
 // ---- control constructors, mux registration (C16 totality) --------------------------------
 //@ func gldap.NewControlString
@@ -506,6 +517,8 @@ package gldap
 //@   ensures  muxFree(m)
 //@   ensures  bindFn == nil ==> result != nil && m.routes == old(m.routes)
 //@   ensures  bindFn != nil ==> result == nil && len(m.routes) == old(len(m.routes)) + 1
+//@   ensures  bindFn != nil ==> result == nil && len(m.routes) == old(len(m.routes)) + 1 && forall(j, 0, old(len(m.routes)), m.routes[j] == old(m.routes[j]))
+//@   ensures  bindFn != nil ==> typeIs(m.routes[old(len(m.routes))], *simpleBindRoute) && routeOK(m.routes[old(len(m.routes))]) && rbase(m.routes[old(len(m.routes))]).h == bindFn
 //@   panics false
 //@   tags C16 C03
 //@ func (*gldap.Mux).Unbind
@@ -517,26 +530,36 @@ package gldap
 //@   requires muxFree(m)
 //@   ensures  muxFree(m)
 //@   ensures  searchFn != nil ==> result == nil && len(m.routes) == old(len(m.routes)) + 1
+//@   ensures  searchFn != nil ==> result == nil && len(m.routes) == old(len(m.routes)) + 1 && forall(j, 0, old(len(m.routes)), m.routes[j] == old(m.routes[j]))
+//@   ensures  searchFn != nil ==> typeIs(m.routes[old(len(m.routes))], *searchRoute) && routeOK(m.routes[old(len(m.routes))]) && rbase(m.routes[old(len(m.routes))]).h == searchFn
 //@   panics false
 //@   tags C16 C03
 //@ func (*gldap.Mux).ExtendedOperation
 //@   requires muxFree(m)
 //@   ensures  muxFree(m)
+//@   ensures  operationFn != nil ==> result == nil && len(m.routes) == old(len(m.routes)) + 1 && forall(j, 0, old(len(m.routes)), m.routes[j] == old(m.routes[j]))
+//@   ensures  operationFn != nil ==> typeIs(m.routes[old(len(m.routes))], *extendedRoute) && routeOK(m.routes[old(len(m.routes))]) && rbase(m.routes[old(len(m.routes))]).h == operationFn
 //@   panics false
 //@   tags C16 C03
 //@ func (*gldap.Mux).Modify
 //@   requires muxFree(m)
 //@   ensures  muxFree(m)
+//@   ensures  modifyFn != nil ==> result == nil && len(m.routes) == old(len(m.routes)) + 1 && forall(j, 0, old(len(m.routes)), m.routes[j] == old(m.routes[j]))
+//@   ensures  modifyFn != nil ==> typeIs(m.routes[old(len(m.routes))], *modifyRoute) && routeOK(m.routes[old(len(m.routes))]) && rbase(m.routes[old(len(m.routes))]).h == modifyFn
 //@   panics false
 //@   tags C16 C03
 //@ func (*gldap.Mux).Add
 //@   requires muxFree(m)
 //@   ensures  muxFree(m)
+//@   ensures  addFn != nil ==> result == nil && len(m.routes) == old(len(m.routes)) + 1 && forall(j, 0, old(len(m.routes)), m.routes[j] == old(m.routes[j]))
+//@   ensures  addFn != nil ==> typeIs(m.routes[old(len(m.routes))], *addRoute) && routeOK(m.routes[old(len(m.routes))]) && rbase(m.routes[old(len(m.routes))]).h == addFn
 //@   panics false
 //@   tags C16 C03
 //@ func (*gldap.Mux).Delete
 //@   requires muxFree(m)
 //@   ensures  muxFree(m)
+//@   ensures  modifyFn != nil ==> result == nil && len(m.routes) == old(len(m.routes)) + 1 && forall(j, 0, old(len(m.routes)), m.routes[j] == old(m.routes[j]))
+//@   ensures  modifyFn != nil ==> typeIs(m.routes[old(len(m.routes))], *deleteRoute) && routeOK(m.routes[old(len(m.routes))]) && rbase(m.routes[old(len(m.routes))]).h == modifyFn
 //@   panics false
 //@   tags C16 C03
 //@ func (*gldap.Mux).DefaultRoute
@@ -729,7 +752,7 @@ package gldap
 //@ func (*gldap.Server).Run$1$1
 //@   requires s != nil && !isNilIface(s.logger) && conn != nil && !isNilIface(conn.netConn) && G_wgcnt[&s.connWg] > 0
 //@   ensures  G_cclosed[iref(conn.netConn)] == old(G_cclosed[iref(conn.netConn)]) + 1 && G_waited[&conn.requestsWg]
-//@   ensures  s.onCloseHandler != nil ==> G_onclose[localConnID] == old(G_onclose[localConnID]) + 1 && G_tclose[iref(conn.netConn)] < G_tonclose[localConnID]
+//@   ensures[C08,C09]  s.onCloseHandler != nil ==> G_onclose[localConnID] == old(G_onclose[localConnID]) + 1 && G_tclose[iref(conn.netConn)] < G_tonclose[localConnID]
 //@   ensures  G_twait[&conn.requestsWg] < G_tclose[iref(conn.netConn)]
 //@   ensures[C12] G_tdone[&s.connWg] > G_tclose[iref(conn.netConn)] && (s.onCloseHandler != nil ==> G_tdone[&s.connWg] > G_tonclose[localConnID])
 //@   ensures  G_wgcnt[&s.connWg] == old(G_wgcnt[&s.connWg]) - 1 && G_connclosed[conn] == old(G_connclosed[conn]) + 1
